@@ -174,9 +174,9 @@ pub fn %s() {
     return {
         "harnesses": hs,
         "groups": {"main": {"features": ["c02"], "timeout_s": 1800},
-                   "msm": {"features": ["c02"], "timeout_s": 2400},
-                   "big": {"features": ["c02"], "timeout_s": 2400, "unwindset": [["try_from_fn_erased", 392]], "mem_gb": 26, "max_jobs": 2},
-                   "stub": {"features": ["c02"], "timeout_s": 1800, "unwindset": [["try_from_fn_erased", 392]], "mem_gb": 26, "max_jobs": 2, "kani_args": ["-Z", "stubbing"]}},
+                   "msm": {"features": ["c02"], "est_gb": 6, "timeout_s": 2400},
+                   "big": {"features": ["c02"], "est_gb": 12, "timeout_s": 2400, "unwindset": [["try_from_fn_erased", 392]], "mem_gb": 26, "max_jobs": 2},
+                   "stub": {"features": ["c02"], "est_gb": 10, "timeout_s": 1800, "unwindset": [["try_from_fn_erased", 392]], "mem_gb": 26, "max_jobs": 2, "kani_args": ["-Z", "stubbing"]}},
         "level": "model_checking",
         "functions": ["rtcm_rs::msg::msgNNNN::decode for all %d message types (called through the verification hook re-exports)" % len(T.messages),
                       "Parser::parse, df::dfs::*::decode, frag_vec/frag_vec_with_len/frag_grid16p/msm_* decode, DataVec::push/set_len"],
